@@ -1,3 +1,4 @@
+import CG.Proofs.WFRun
 import CG.Proofs.C02Core
 import CG.Proofs.Basics
 #print axioms CG.C02.selfDep_iff
@@ -20,3 +21,11 @@ import CG.Proofs.Basics
 #print axioms CG.C02.acyclic_congr
 #print axioms CG.C02.acyclic_of_rank
 #print axioms CG.selfDepR_iff
+#print axioms CG.acyclic_ins_iff
+#print axioms CG.setEdge_rejects_iff
+#print axioms CG.setEdge_accepts_iff
+#print axioms CG.setEdge_nondirected_no_cycle_error
+#print axioms CG.addEdge_cyclic_iff
+#print axioms CG.acyclic_stepRef
+#print axioms CG.acyclic_runRef
+#print axioms CG.isDag_iff
